@@ -17,7 +17,8 @@ ASSUMPTIONS = ["grid model: contiguous steps from ts[0]; every step but the last
                "the last ends exactly at ts[-1] and is no longer than dt*(1+1e-6)",
                "interpolation compared to an independent float64 interpolant: 1e-13 (float64 state) / 2e-5 (float32)"]
 REQUIRED_COUNTERS = ["steps", "outputs_inside_step", "outputs_on_grid", "variant_shared_outputs", "ts_list", "ts_f32",
-                     "y_f32", "several_outputs_one_step", "dt_larger_than_T"]
+                     "y_f32", "several_outputs_one_step", "dt_larger_than_T", "outputs_inside_clipped_last_step",
+                     "first_gap_smaller_than_dt"]
 THRESHOLDS = {"interp_f64": 1e-13, "interp_f32": 2e-5}
 
 
@@ -43,6 +44,13 @@ def _mk_ts(rng, t0, T, layout, dt):
         pts = sorted({base + dt * u for u in (0.1, 0.35, 0.5, 0.8)})
         pts = [p for p in pts if t0 < p < t0 + T]
         return [t0] + pts + [t0 + T]
+    if layout == "last_step":  # outputs strictly inside the last (possibly clipped, shorter than dt) step
+        k = int(T / dt - 1e-9)
+        lo = t0 + k * dt
+        pts = sorted({lo + (t0 + T - lo) * u for u in (0.25, 0.6)})
+        pts = [p for p in pts if t0 < p < t0 + T]
+        first = [t0 + 0.3 * min(dt, T)] if rng.random() < 0.5 else []  # (and a first gap smaller than dt)
+        return [t0] + sorted({p for p in first + pts if t0 < p < t0 + T}) + [t0 + T]
     n = rng.choice([2, 4, 9])
     pts = sorted({t0 + rng.uniform(0.02, 0.98) * T for _ in range(n)})
     return [t0] + pts + [t0 + T]
@@ -56,10 +64,10 @@ def run_case(case):
     d, m, B = rng.choice([1, 2, 3]), rng.choice([1, 2, 3]), rng.choice([1, 2, 4])
     ydt = torch.float32 if rng.random() < 0.25 else torch.float64
     tdt = rng.choice(["list", "tuple", "f64", "f64", "f32"])
-    t0 = rng.choice([0.0, -1.0, 2.5])
+    t0 = rng.choice([0.0, -1.0, 2.5, 0.0, -1.0, 2.5, 1200.0])
     T = rng.choice([1.0, 0.5, 2.0])
     dt = rng.choice([0.1, 0.05, 0.125, 0.3, 0.07, T * 1.7, 0.013])
-    layout = rng.choice(["two", "aligned", "random", "random", "cluster"])
+    layout = rng.choice(["two", "aligned", "random", "random", "cluster", "last_step"])
     sde = zoo.cell_sde(cell, d=d, m=m, seed=rng.randrange(10 ** 6), gscale=0.5)
     tsl = _mk_ts(rng, t0, T, layout, dt)
     entropy = rng.randrange(1, 10 ** 9)
@@ -90,6 +98,7 @@ def run_case(case):
     cnt["ts_f32"] = int(tdt == "f32")
     cnt["y_f32"] = int(ydt == torch.float32)
     cnt["dt_larger_than_T"] = int(dt > T)
+    cnt["first_gap_smaller_than_dt"] = int(len(tsl) >= 3 and tsl[1] - tsl[0] < dt)
     # shape / dtype
     if tuple(ys.shape) != (len(tsl), B, d) or ys.dtype != ydt:
         viol.append({"mechanism": "shape_or_dtype", "detail": f"{tuple(ys.shape)} {ys.dtype} {ctx}"})
@@ -137,6 +146,8 @@ def run_case(case):
         else:
             cnt["outputs_inside_step"] = cnt.get("outputs_inside_step", 0) + 1
             ta, tb, tt = float(s["t0_raw"]), float(s["t1_raw"]), float(t)
+            if k == len(steps) - 1 and (tb - ta) < 0.999 * dt:
+                cnt["outputs_inside_clipped_last_step"] = cnt.get("outputs_inside_clipped_last_step", 0) + 1
             w = (tt - ta) / (tb - ta)
             ya, yb = s["y0"].detach().double(), s["y1"].detach().double()
             want = ya + w * (yb - ya)
